@@ -12,7 +12,7 @@ import sys
 
 from dsim import sched, seams
 from dsim.display import DisplayOracle, SpanTracker, crop_frame, nonblank
-from dsim.programs import FaultCounter, Faulty, InjectedFault, Pristine, build, unwrap
+from dsim.programs import FAULTS, FaultCounter, Faulty, InjectedFault, InjectedInterrupt, Pristine, build, unwrap
 from dsim.seams import SimClock, SimFile
 
 PROP = "C10"
@@ -171,10 +171,12 @@ class C10:
             return []
         n = len(case["ops"])
         calls = res["probes"].get("render_calls", 0)
-        pts = [{"type": "body", "pos": p} for p in range(n + 1)]
+        # each crash point raises either an Exception subclass or a bare BaseException subclass
+        # (what KeyboardInterrupt / SystemExit are): cleanup must not depend on `except Exception`
+        pts = [{"type": "body", "pos": p, "base": rng.random() < 0.35} for p in range(n + 1)]
         for k in range(calls):
-            pts.append({"type": "render", "k": k, "persistent": False})
-            pts.append({"type": "render", "k": k, "persistent": True})
+            pts.append({"type": "render", "k": k, "persistent": False, "base": rng.random() < 0.35})
+            pts.append({"type": "render", "k": k, "persistent": True, "base": rng.random() < 0.35})
         cap = 10 if tier == "quick" else 60
         if len(pts) > cap:
             pts = rng.sample(pts, cap)
@@ -248,7 +250,7 @@ class Program:
         fault = case.get("fault")
         self.fault = fault
         k = fault["k"] if fault and fault["type"] == "render" else None
-        self.counter = FaultCounter(k, bool(fault and fault.get("persistent")), "C10-fault")
+        self.counter = FaultCounter(k, bool(fault and fault.get("persistent")), "C10-fault", base=bool(fault and fault.get("base")))
         self.counter.on_fire = lambda: setattr(self.oracle, "stop_checks", True)
         self.started = False
         self.viol = []
@@ -259,7 +261,7 @@ class Program:
         self.model_before = None
         self.in_client_op = False
         self.frame_at_op_begin = None
-        self.probes = {"restart": 0, "render_calls": 0, "body_fault_fired": 0, "render_fault_fired": 0,
+        self.probes = {"restart": 0, "render_calls": 0, "body_fault_fired": 0, "render_fault_fired": 0, "base_exception_faults": 0,
                        "fault_in_helper_thread": 0, "print_while_live": 0, "stdout_lines": 0, "post_probe_ok": 0}
         self.stdout_sentinel = sys.stdout
         self.stderr_sentinel = sys.stderr
@@ -405,7 +407,7 @@ class Program:
                     self._body_fault()
                 self._op_stop_begin()
             self._op_stop_end()
-        except InjectedFault as e:
+        except FAULTS as e:
             self.caught = e
             o.stop_checks = True
         except sched.SimAbort:
@@ -421,7 +423,7 @@ class Program:
     def _body_fault(self):
         self.probes["body_fault_fired"] += 1
         self.oracle.stop_checks = True
-        raise InjectedFault("C10-fault")
+        raise (InjectedInterrupt if self.fault.get("base") else InjectedFault)("C10-fault")
 
     def _op_start(self, via_enter=False):
         o = self.oracle
@@ -603,7 +605,7 @@ class Program:
         # before the thread has observed `done` when its final refresh raised.)
         for t in sim.threads:
             if t.kind == "helper" and t.exc is not None:
-                if isinstance(t.exc, InjectedFault):
+                if isinstance(t.exc, FAULTS):
                     self.probes["fault_in_helper_thread"] += 1
                 else:
                     v.append(("exception", "helper-exception", "%s died: %s" % (t.name, (t.tb or "")[-500:])))
@@ -643,6 +645,8 @@ class Program:
                 viols.append({"oracle": "exception", "sig": "client-exception:" + type(t.exc).__name__,
                               "msg": "client died: %s" % (t.tb or "")[-700:], "seq": sim.seq})
         self.probes["render_calls"] = self.counter.calls
+        if self.fault and self.fault.get("base") and (self.counter.fired or self.probes["body_fault_fired"]):
+            self.probes["base_exception_faults"] += 1
         self.probes["render_fault_fired"] = self.counter.fired
         probes = dict(self.oracle.probe)
         probes.update({k: v for k, v in self.probes.items() if not k.startswith("_")})
